@@ -53,8 +53,9 @@ PROPS = {
     },
     'C12': {
         'props': 'Props/C12.v',
-        'suites': [{'name': 'cdecode', 'oracles': {'cdecode': 'o_reqs'}, 'trivial_tags': ['out-wait'], 'vm_sample': 40}, {'name': 'cfeed', 'oracles': {'cfeed': 'o_feed'}, 'trivial_tags': [], 'vm_sample': 15}],
-        'rule': 'as C06/C08, with the hostile stream: counts/lengths 0, -1, -0, +1, 00, 01, 2^31, 2^63-1, 2^63, 2^64+k, 20+ digits, empty; wrong type '
+        'suites': [{'name': 'cdecode', 'oracles': {'cdecode': 'o_reqs'}, 'trivial_tags': ['out-wait'], 'vm_sample': 40}, {'name': 'cfeed', 'oracles': {'cfeed': 'o_feed'}, 'trivial_tags': [], 'vm_sample': 15},
+                   {'name': 'pressure', 'oracles': {'loopfinal': 'o_loop'}, 'trivial_tags': ['plain'], 'vm_sample': 3, 'sigs': ['event-loop-stopped', 'request-never-answered-and-connection-left-open']}],
+        'rule': 'pressure: 60 (quick) histories through the production loop with minimal socket send buffers and peers that read late - a client that has read nothing sends garbage and must be closed without stalling the loop; as C06/C08, with the hostile stream: counts/lengths 0, -1, -0, +1, 00, 01, 2^31, 2^63-1, 2^63, 2^64+k, 20+ digits, empty; wrong type '
                 'markers; dropped CR/LF; truncations; inline commands; random bytes; bit flips; leading blank lines - alone and followed by valid requests',
         'explanation': 'Theorems (decoder side): the decoder never yields the nil result or diverges on any input (C12_decoder_total, '
                        'C12_read_loop_total); every fragment built from ANY accepted input is a request of the strict Redis grammar '
@@ -182,10 +183,19 @@ PROPS = {
     },
     'C19': {
         'props': 'Props/C19.v',
-        'suites': [{'name': 'buf', 'oracles': {'buf': 'o_buf'}, 'trivial_tags': [], 'vm_sample': 8}],
+        'suites': [{'name': 'buf', 'oracles': {'buf': 'o_buf'}, 'trivial_tags': [], 'vm_sample': 8},
+                   {'name': 'pressure', 'oracles': {'loopfinal': 'o_loop'}, 'trivial_tags': ['plain'], 'vm_sample': 4}],
         'rule': 'operation sequences of 5-45 operations on ring.Buffer (initial sizes 0..5000), elastic.RingBuffer (pooled ring) and elastic.Buffer (static threshold 1..8192) through their exported APIs: Write, Writev, WriteByte, Peek(n) incl. n<=0, Discard, Read, ReadByte, Reset; sizes are chosen adaptively from the live state (exact fill, one off, distance to the static/dynamic threshold, 0, small/medium/large up to 9000 bytes) so that wrap-around, growth below and above the 4 KiB grow threshold and ring-to-list spill are hit; data bytes are a running counter so any reordering or corruption is visible. distinct = distinct (kind, parameter, operation list); non-trivial = all (every sequence has writes and drains)',
         'explanation': 'Theorems over ALL operation sequences: ring.Buffer, elastic.RingBuffer and elastic.Buffer conform to an ideal FIFO byte queue - every Peek/Read result is the oldest bytes, every Discard count and every Buffered()/IsEmpty() is exact, for any initial capacity, any recycled-ring capacity and any static threshold (C19_ring_is_a_fifo, C19_elastic_ring_is_a_fifo, C19_elastic_buffer_is_a_fifo; refinement through a view of the circular buffer as empty / linear / wrapped segments; growth capacity proved sufficient incl. the 1.25x loop). One genuine defect repaired (WriteByte on a full ring >= 4 KiB wrote past the slice). The models are tied to the Go buffers by operation sequences on the exported APIs; an independent FIFO oracle is evaluated on the Go results. False alarm fixed while building: the oracle first demanded that elastic.Buffer.Peek(n) return exactly n bytes; it returns whole chunks (>= n), which its callers handle - the oracle and the theorem now state prefix + at-least-n.',
         'assumptions': ['fewer than 2^31 bytes are written in total (small_size; Go int and the math.MaxInt32 substitution in Peek)', 'slices returned by Peek alias the buffer: callers must consume them before the next write (the harness copies them at once; eventloop.write does)', 'ReadFrom / WriteTo (io.Reader / io.Writer variants, unused by the proxy) and the byteslice pool internals are not modelled', 'partial socket writes and EPOLLOUT re-arming in connection.go write/writev are exercised by the event-loop suites only as far as socketpairs produce them'],
+    },
+    'C10': {
+        'props': 'Props/C10.v',
+        'suites': [{'name': 'loop', 'oracles': {'loop': 'o_loop'}, 'trivial_tags': ['plain'], 'vm_sample': 12, 'sigs': ['requests-of-one-client-reordered-on-a-node', 'backend-received-bytes-that-are-not-requests', 'event-loop-stopped']},
+                   {'name': 'pressure', 'oracles': {'loopfinal': 'o_loop'}, 'trivial_tags': ['plain'], 'vm_sample': 3, 'sigs': ['requests-of-one-client-reordered-on-a-node', 'backend-received-bytes-that-are-not-requests', 'reply-does-not-belong-to-the-request-at-its-position', 'event-loop-stopped']}],
+        'rule': LOOP_RULE + ' | pressure: histories with minimal socket send buffers in which backends and clients read late and in small pieces (requests of 1.5-9 KB, replies of 2.5-8 KB), so that writes are partial and later fragments are queued behind a backlog in the outbound buffer; compared with the model at quiescence',
+        'explanation': 'Theorem C10_per_connection_order over ALL event histories: on every backend connection the request numbers of one client\'s fragments (wire order, then pending order) never decrease; redirected fragments excluded, fragments of one request may permute (OInv, inductive over events; uses the wire identity of C03 and a permutation argument for the map-order reordering inside one request). The oracle checks the order on what the fake nodes actually received, keyed by c<client>r<seq>, also under backpressure (partial writes, outbound backlog in the ring-then-list buffer).',
+        'assumptions': ['as C01', 'one connection per node (max_active = 1 in all layouts): with more connections Pool.Get rotates and the property is not claimed', 'the order of bytes inside the outbound buffer under partial writes is C19 (buffers are FIFO); the pressure suite ties the two together on the real sockets'],
     },
     'C13': {
         'props': 'Props/C13.v',
@@ -230,6 +240,11 @@ MANIFEST_TEXT = {
         'text': 'Coq refinement proofs: ring.Buffer, elastic.RingBuffer and elastic.Buffer conform to an ideal FIFO byte queue for every operation sequence (exact results, exact lengths; Peek of the mixed buffer: oldest bytes, at least n). Differential run of generated operation sequences on the exported Go APIs with controlled pool contents, plus an independent FIFO oracle.',
         'note': 'Trusted: Coq kernel, extraction, Go harness + hooks (elastic/verif_hooks.go, pool/ringbuffer/verif_hooks.go), transcription in Model/Buffers.v (validated on every run). Bound: < 2^31 bytes.',
         'technique': 'Coq proof (refinement to a FIFO byte queue) + differential correspondence on the exported buffer APIs',
+    },
+    'C10': {
+        'text': 'Coq theorem over ALL event histories: per backend connection, one client\'s fragments are written and queued in request order (inductive invariant; permutation argument for fragments of one request). Histories through the real loop incl. backpressure (partial writes) with an order oracle on what the nodes received.',
+        'note': 'Trusted: Coq kernel, extraction, Go harness + stepper hooks, transcription in Model/Proxy.v (validated on every run). Claimed for one connection per node only.',
+        'technique': 'Coq proof (inductive invariant over event-loop steps) + differential correspondence through the real event loop, also under backpressure',
     },
     'C13': {
         'text': 'Coq theorems on the redirect step (re-queue at tail, nothing reaches the client) + C01 invariant; ASK part refuted by a computed witness and recorded as a known finding. MOVED/ASK/unknown-node histories through the real loop.',
